@@ -19,6 +19,9 @@ S1small == {[WithIdx(TrStk("OR", es), o) EXCEPT !.er = (o[1])] : es \in {<<>>, <
 
 \* element alternatives of a depth-2 stack
 A2 == {L, TrNil, TrCnd(<<"k">>, "Eq", L)} \cup S1small \cup {TrCnd(<<"k">>, "Eq", s) : s \in S1small}
+   \cup {TrCnd(<<>>, "Eq", WithIdx(TrStk("OR", <<L, TrNil>>), <<FALSE, FALSE>>)),                      \* a Condition that is not VALID (no keyword) is descended into all the same
+         TrCnd(<<"k">>, "Eq", [WithIdx(TrStk("OR", <<L, TrNil>>), <<FALSE, FALSE>>) EXCEPT !.form = "alias"]),  \* ... and one holding a Stack in alias / pointer form
+         TrCnd(<<"k">>, "Ge", [WithIdx(TrStk("OR", <<TrNil, L>>), <<TRUE, TRUE>>) EXCEPT !.form = "ptr"])}
    \cup {[s EXCEPT !.form = f] : s \in {WithIdx(TrStk("OR", <<L, TrNil>>), <<FALSE, FALSE>>)}, f \in {"alias", "ptr"}}
 S2 == {[WithIdx(TrStk("AND", es), o) EXCEPT !.nn = b] : es \in SeqsUpTo(A2, Width), o \in IdxOpts, b \in BOOLEAN}
 
